@@ -126,7 +126,8 @@ void dsim_scenario() {
                 pl.run_detached([&pl, &dep, j = dep_p, tp] { ran(pl, j); dep.sync(); });                         // occupies its worker until ...
                 pl.run_detached([&pl, j = dep_q, tq, dp = std::move(dp)]() mutable { ran(pl, j); dp(); });       // ... this one has run (or was cancelled: the dropped promise resolves too)
                 tp.reset(); tq.reset();
-                dsim::wait_cell(TOKEN_GONE + dep_p); dsim::wait_cell(TOKEN_GONE + dep_q);                        // both closures are gone before 'dep' leaves scope
+                dep.sync();                                                                                      // the owner of 'dep' learns of the resolution through the library ...
+                dsim::wait_cell(TOKEN_GONE + dep_p); dsim::wait_cell(TOKEN_GONE + dep_q);                        // ... and both closures are gone before 'dep' leaves scope
             }
             for (int k = 0; k < njobs[s]; k++) submit(*pool, kinds[s][k], jid[s][k], stop_mode, bare[s]);
         });
